@@ -28,7 +28,7 @@ REQUIRED = {'domain': 500, 'budget': 500, 'prefix': 500, 'stop-m-iff': 500,
     'stop-reason': 1000, 'none-stop': 200, 'no-eval-after-stop': 200,
     'cb-stop': 40, 'threshold-stop': 40, 'nswp-zero': 40, 'reject-before-eval': 100, 'pattern-run': 100,
     'cache-once': 200, 'counter-cache': 200, 'history-info-reuse': 200,
-    'history-cache-reuse': 200}
+    'history-cache-reuse': 200, 'conv-rule': 40}
 REQUIRED_EVENTS = {'interrupt-ltr-first': 5, 'interrupt-ltr-middle': 5,
     'interrupt-ltr-last': 5, 'interrupt-rtl-first': 5,
     'interrupt-rtl-middle': 5, 'interrupt-rtl-last': 5,
@@ -345,6 +345,42 @@ def run_case(case, ctx):
                         refrun.result) and runC.info['nswp'] ==
                         refrun.info['nswp'], f'{lab}: result / sweep count '
                         'differ from the run with an empty cache')
+
+    # ---- (h4) the cache-specific stop "conv": documented rule m_cache >
+    # m_cache_scale * m after a sweep - strictly greater.  The trajectory of
+    # the counters is recorded with the rule switched off, then scales are
+    # placed exactly ON a point of it (a tie) and next to it
+    if use_cache:
+        traj_run = crossh.execute(crossh.Run(T), Y0, **dict(base, nswp=8,
+            cache={}, m_cache_scale=1e18))
+        if traj_run.error is None and traj_run.sweeps:
+            tr = [(sw[2]['m'], sw[2]['m_cache']) for sw in traj_run.sweeps]
+            cands = []
+            for (m_s, c_s) in tr[:-1]:
+                if m_s > 0 and c_s > 0:
+                    sc = c_s / m_s
+                    if sc * m_s == c_s:
+                        cands += [sc, np.nextafter(sc, 0), np.nextafter(sc, 9)]
+            for sc in cands[:6]:
+                want = next((t + 1 for t, (m_t, c_t) in enumerate(tr)
+                    if c_t > sc * m_t), None)
+                runv = crossh.execute(crossh.Run(T), Y0, **dict(base, nswp=8,
+                    cache={}, m_cache_scale=float(sc)))
+                if runv.error is not None:
+                    continue
+                got = (runv.info['stop'], runv.info['nswp'])
+                exp = ('conv', want) if want is not None and want <= 8 \
+                    else ('nswp', 8)
+                if exp[0] == 'conv' and want == 8:
+                    exp_ok = got in (('conv', 8), ('nswp', 8))
+                else:
+                    exp_ok = got == exp
+                ctx.check('conv-rule', exp_ok, lambda: f'stop rule "conv" '
+                    f'with m_cache_scale = {float(sc)!r}: counters per sweep '
+                    f'(m, m_cache) = {tr[:6]}...: expected stop {exp}, got '
+                    f'{got} (the rule is m_cache > scale * m, strictly)')
+            if cands:
+                ctx.event('conv-rule-ties-placed')
 
     # ---- (c) callback returns True at sweep s
     for s in range(1, len(refrun.sweeps) + 1):
